@@ -17,6 +17,9 @@
                      TOP_LEVEL_FINAL and FINISHED -- a finished interpreter resumes as a running one [sz_final_lost]
      order         : the external and the delayed queue are filled BEFORE the md5 comparison: a rejected
                      foreign state string leaves its events in the rejecting interpreter          [sz_queue_before_md5]
+     left out      : (no switch of the real code, pinned or repaired; a seeded change of round 5) a value for which
+                     Data::empty() holds is not written: the resumed interpreter, whose <data> initialisation is
+                     skipped because the initialised-data set IS restored, has no value for it       [sz_skip_value]
      invented      : serialize() writes evalAsData(id) for EVERY <data id>, also of states never entered
                      (binding=late); the Promela datamodel evaluates an undeclared name to `false` and
                      init(id, false) DECLARES it with value 0: after the resume an assignment to it succeeds where
@@ -141,10 +144,13 @@ Record sz_variant := {
   sz_stable_lost : bool;
   sz_final_lost : bool;
   sz_queue_before_md5 : bool;
-  sz_undeclared_restored : bool
+  sz_undeclared_restored : bool;
+  (* a value that is left out of the state string (Data::empty(): '' or {} in Lua; never an integer -- no switch of
+     the code as pinned or as repaired, kept so that this way of losing a value can be stated and refuted) *)
+  sz_skip_value : Z -> bool
 }.
-Definition sz_pinned := {| sz_delay_lost := true; sz_stable_lost := true; sz_final_lost := true; sz_queue_before_md5 := true; sz_undeclared_restored := false |}.
-Definition sz_fixed := {| sz_delay_lost := false; sz_stable_lost := false; sz_final_lost := false; sz_queue_before_md5 := false; sz_undeclared_restored := false |}.
+Definition sz_pinned := {| sz_delay_lost := true; sz_stable_lost := true; sz_final_lost := true; sz_queue_before_md5 := true; sz_undeclared_restored := false; sz_skip_value := fun _ => false |}.
+Definition sz_fixed := {| sz_delay_lost := false; sz_stable_lost := false; sz_final_lost := false; sz_queue_before_md5 := false; sz_undeclared_restored := false; sz_skip_value := fun _ => false |}.
 
 Record istate := {
   i_l : lstate;                    (* the micro-stepper *)
@@ -293,6 +299,10 @@ Section Ser.
 Variable v : sz_variant.
 Variable own_md5 : bytes.       (* md5 of the document this interpreter was made for *)
 
+(* what serialize() writes for a variable: its value, unless the variant leaves that value out *)
+Definition written_value (vv : sz_variant) (o : option Z) : option Z :=
+  match o with Some z => if sz_skip_value vv z then None else Some z | None => None end.
+
 (* [rc]: InterpreterImpl::_state, the last result of step() *)
 Definition serialize (rc : N) (s : istate) : option snapshot :=
   if serializable rc then
@@ -303,7 +313,7 @@ Definition serialize (rc : N) (s : istate) : option snapshot :=
             sn_initd := encode_set e n (l_initd l); sn_inv := encode_set e n (i_inv s);
             sn_stable := if sz_stable_lost v then None else Some (l_stable l);
             sn_final := if sz_final_lost v then None else Some (l_tlf l, l_fin l);
-            sn_data := map (fun id => (id, lookup (x_store (i_x s)) id)) declared;
+            sn_data := map (fun id => (id, written_value v (lookup (x_store (i_x s)) id))) declared;
             sn_eq := x_eq (i_x s);
             sn_dq := if sz_delay_lost v then [] else i_dq s |}
   else None.     (* "Cannot serialize an unstable interpreter" *)
